@@ -100,6 +100,7 @@ func (p *planner) plan() (shared.SQLRequestPlanner, error) {
 		Main:     p.samplesPlanner,
 		IsMatrix: p.script.StrSelector == nil,
 		IsFinal:  p.finalize,
+		Caches:   []**sql.With{&p.fpCache, &p.labelsCache},
 	}
 
 	/*chGetter := &ClickhouseGetterPlanner{
